@@ -534,6 +534,11 @@ def py_case(ctx, names, c, P, Q, tag, replaying=False):
                         mech = classify_pp(v)
                         break
                 w = dict(wbase, kind='py-shown', state=s0, final=fin, vcs=rec['vc_strs'])
+                ctx.count('py_shown_vcs_all_valid_but_run_violates_post')
+                if 'shown' not in VC_NOTED:
+                    VC_NOTED.add('shown')
+                    ctx.note('consequence of [%s]: every VC AS SHOWN %s is valid (Z3), the computed VCs are not, and {%s} %s {%s} '
+                             'started in %s ends in %s' % (mech, rec['vc_strs'], L.show(P), L.show_com(c), L.show(Q), s0, fin))
                 ctx.violation(mech, 'every VC as shown to the user %s (re-parsed) is valid, the computed ones are not, and '
                               '{%s} %s {%s} started in %s ends in %s' % (rec['vc_strs'], L.show(P), L.show_com(c),
                                                                           L.show(Q), s0, fin), w)
